@@ -121,7 +121,8 @@ def body(chk: core.Check):
     chk.bound("status_codes", "every subset of {UNAVAILABLE, DEADLINE_EXCEEDED, ABORTED, INTERNAL} (first entry), 2 codes (second)")
     chk.stubs += ["wrap_method / Retry / if_exception_type recorders for the emitted _prep_wrapped_messages", gen.PANDOC_STUB_NOTE]
     chk.outside += ["_to_float on arbitrary duration strings (float parsing is C code; menu of 4 durations)",
-                    "the retry loop, sleeps and deadlines themselves (api_core.retry), explicit per-call overrides"]
+                    "the retry loop, sleeps and deadlines themselves (api_core.retry); explicit per-call overrides beyond their "
+                    "being handed to the wrapped method (C03 dispatch) and threaded through the pagers (here)"]
     src = open(f"{core.REPO}/gapic/schema/api.py").read()
     i = src.index("def _get_retry_and_timeout")
     chk.encoded("gapic/schema/api.py: _ProtoBuilder._get_retry_and_timeout/_to_float", src[i:i + 3300])
@@ -144,6 +145,17 @@ def body(chk: core.Check):
         for k, text in bad.items():
             chk.violation(k, text, {"kind": "program", "cfg": idx, "diff_key": k})
         chk.encoded(f"emitted transports/base.py _prep_wrapped_messages (config {idx})", g.text("services/library/transports/base.py"))
+    # (2b) explicit per-call overrides on paged methods: every follow-up page request of the emitted pagers carries the
+    # caller's retry/timeout/metadata (shared pager harness of C07, small history bound)
+    if chk.only("pager-overrides"):
+        hp = os.path.join(core.VERIF, "harness", "h07_pager.py")
+        gp = gen.generate(apis.paging_api(), parameter="transport=grpc+rest")
+        chk.programs += 1
+        envp = {"VERIF_EMITTED": gp.outdir, "VERIF_NP": "3", "VERIF_NI": "1"}
+        chk.encoded("emitted pagers.py (paging_api): pages loops", open(gp.path("services/library/pagers.py")).read())
+        chk.bound("pager_override_histories", "<= 3 pages x <= 1 item, sync and asyncio ListBooks pagers")
+        resp = ch.run(hp, ["sync_books", "async_books"], timeout=300, env=envp, jobs=chk.jobs)
+        ch.settle(chk, hp, resp, "pager-overrides")
     # (3) status-code table
     import grpc
     from google.api_core import exceptions
@@ -161,7 +173,10 @@ def replay(chk, data):
     if data.get("kind") == "program":
         _oks, bad, _g = program_diff(data["cfg"])
         return bad.get(data["diff_key"])
-    rep, detail = ch.replay_call(os.path.join(core.VERIF, data["harness"]), data["call"], data.get("env"))
+    env = dict(data.get("env") or {})
+    if str(data.get("harness", "")).endswith("h07_pager.py"):
+        env["VERIF_EMITTED"] = gen.generate(apis.paging_api(), parameter="transport=grpc+rest").outdir
+    rep, detail = ch.replay_call(os.path.join(core.VERIF, data["harness"]), data["call"], env)
     return f"{data['call']} -> {detail}" if rep else None
 
 
